@@ -35,6 +35,9 @@ enum Op {
     Rewind { which: usize }, // index into the checkpoints created so far (manual and auto); usize::MAX = last
 }
 
+/// Legal file names that look unusual to path-handling code.
+const ODD_NAMES: [&str; 6] = ["v1..v2", "..x", "x..", ".h", "sp ace", "\u{e9}t\u{e9}"];
+
 fn alphabet(tier: Tier) -> Vec<Op> {
     let mut ops = vec![
         Op::Checkpoint { paths: vec!["a"], absolute: false },
@@ -290,8 +293,25 @@ fn execute(report: &Report, ctx: &Ctx, session: &str, history: &[Op]) -> bool {
                     continue;
                 };
                 nontrivial = true;
+                // "an edit can always be undone": nothing stands in the way of this rewind when no
+                // covered path is a directory now and every ancestor of one is a directory or absent
+                let obstacle = ck.record.keys().any(|p| {
+                    let full = ctx.root.join(p);
+                    full.is_dir() || full.ancestors().skip(1).take_while(|a| a.starts_with(&ctx.root) && *a != ctx.root).any(|a| a.exists() && !a.is_dir())
+                });
                 let events = ctx.runner.rewind_checkpoint(session, &mut seq, &ck.id);
                 let ok = events.iter().any(|e| matches!(e.kind, EventKind::CheckpointRewound { .. }));
+                if !ok && !obstacle {
+                    let err = events.iter().find_map(|e| match &e.kind {
+                        EventKind::CheckpointFailed { error, .. } => Some(error.clone()),
+                        _ => None,
+                    });
+                    report.violation(
+                        "C14:rewind:refused_without_obstacle",
+                        case_json(ctx, hist),
+                        &format!("rewind to {} checkpoint #{idx} (covers {:?}) failed although no covered path is blocked by a directory or a file in place of a directory: {:?}", if ck.auto { "auto" } else { "manual" }, ck.record.keys().collect::<Vec<_>>(), err),
+                    );
+                }
                 let after = observe(&ctx.root);
                 if ok {
                     report.count("rewinds_succeeded", 1);
@@ -425,6 +445,52 @@ fn worker(opts: Opts) -> i32 {
             }
         }
     }
+    // third pass: unusual but legal file names (dots that are not parent segments, a leading dot, a
+    // space, a non-ASCII letter) for the tools and for manual checkpoints: every history of 2..3 ops
+    // that contains one and ends in a rewind
+    {
+        let mut ext = ops.clone();
+        for name in ODD_NAMES {
+            ext.push(Op::Write { path: name, content: "odd\n" });
+            ext.push(Op::PatchAdd { path: name });
+            ext.push(Op::PatchDelete { path: name });
+            ext.push(Op::Checkpoint { paths: vec![name], absolute: false });
+        }
+        let m = ext.len();
+        let is_odd = |o: &Op| match o {
+            Op::Write { path, .. } | Op::PatchAdd { path } | Op::PatchDelete { path } => ODD_NAMES.contains(path),
+            Op::Checkpoint { paths, .. } => paths.iter().any(|p| ODD_NAMES.contains(p)),
+            _ => false,
+        };
+        for len in 2..=3usize {
+            let total = m.pow(len as u32);
+            for code in 0..total {
+                let mut c = code;
+                let mut idxs = Vec::with_capacity(len);
+                for _ in 0..len {
+                    idxs.push(c % m);
+                    c /= m;
+                }
+                if !is_rewind(&ext[idxs[len - 1]]) || !idxs.iter().any(|&i| is_odd(&ext[i])) {
+                    continue;
+                }
+                counter += 1;
+                if counter % of != shard {
+                    continue;
+                }
+                if report.over_cap() {
+                    break;
+                }
+                let history: Vec<Op> = idxs.iter().map(|&i| ext[i].clone()).collect();
+                sess_no += 1;
+                let session = format!("s{shard}-o{sess_no}");
+                if execute(&report, &ctx, &session, &history) {
+                    report.eval(Some(&(&history, &ctx.cwd_mode)));
+                    report.count("histories_with_an_unusual_file_name", 1);
+                }
+            }
+        }
+    }
     for len in 1..=depth {
         let total = n.pow(len as u32);
         for code in 0..total {
@@ -519,6 +585,12 @@ fn replay(report: &Report, case: &Value) -> i32 {
     let mut all = alphabet(Tier::Thorough);
     for w in 0..MULTI_PATCHES {
         all.push(Op::PatchMulti { which: w });
+    }
+    for name in ODD_NAMES {
+        all.push(Op::Write { path: name, content: "odd\n" });
+        all.push(Op::PatchAdd { path: name });
+        all.push(Op::PatchDelete { path: name });
+        all.push(Op::Checkpoint { paths: vec![name], absolute: false });
     }
     let mut history = Vec::new();
     for h in case["history"].as_array().cloned().unwrap_or_default() {
